@@ -30,6 +30,17 @@ theorem c02_source_facts :
             "cache.gop.Reset", "cache.gop.Push", "cache.gop.Len", "cache.gop.Push"] IpcHub.Gen.progH264CachePack = true ∧
     subseq ["cache.getPalyloadType", "cache.l.Lock", "set cache.vps", "return", "set cache.sps", "return", "set cache.pps", "return",
             "cache.gop.Reset", "cache.gop.Push", "cache.gop.Len", "cache.gop.Push"] IpcHub.Gen.progHevcCachePack = true ∧
+    -- a key frame of several slice packets: the key run (same RTP timestamp as the previous key slice) is
+    -- tested before the GOP is touched, kept per cache, and cleared by Reset
+    IpcHub.Gen.condsH264CachePack = ["rtppack.Channel != rtp.ChannelVideo", "sps", "pps",
+      "islice && cache.keyRun && cache.keyTs == rtppack.Timestamp", "cache.cacheGop", "islice", "cache.gop.Len() > 0"] ∧
+    IpcHub.Gen.condsHevcCachePack = ["rtppack.Channel != rtp.ChannelVideo", "vps", "sps", "pps",
+      "islice && cache.keyRun && cache.keyTs == rtppack.Timestamp", "cache.cacheGop", "islice", "cache.gop.Len() > 0"] ∧
+    subseq ["set cache.pps", "return", "set cache.keyRun", "set cache.keyTs", "cache.gop.Reset"] IpcHub.Gen.progH264CachePack = true ∧
+    subseq ["set cache.pps", "return", "set cache.keyRun", "set cache.keyTs", "cache.gop.Reset"] IpcHub.Gen.progHevcCachePack = true ∧
+    countOf "set cache.keyRun" IpcHub.Gen.progH264CachePack = 1 ∧ countOf "set cache.keyRun" IpcHub.Gen.progHevcCachePack = 1 ∧
+    subseq ["cache.gop.Reset", "set cache.keyRun"] IpcHub.Gen.progH264CacheReset = true ∧
+    subseq ["cache.gop.Reset", "set cache.keyRun"] IpcHub.Gen.progHevcCacheReset = true ∧
     subseq ["cache.sps.Size", "cache.pps.Size", "cache.gop.Elems", "q.Queue().PushN"] IpcHub.Gen.progH264PushTo = true ∧
     subseq ["cache.vps.Size", "cache.sps.Size", "cache.pps.Size", "cache.gop.Elems", "q.Queue().PushN"] IpcHub.Gen.progHevcPushTo = true ∧
     subseq ["cache.gop.Elems", "set metaData.Timestamp", "set videoSequenceHeader.Timestamp",
@@ -43,20 +54,73 @@ theorem c02_source_facts :
 
 /-- What the cache holds after ANY accepted packet sequence: each parameter-set slot holds the
     most recent packet of that kind (VPS only for H.265), and with GOP caching the GOP is exactly
-    the video packets from the most recent key-frame packet onward (parameter-set packets are not
-    part of it); without GOP caching it is empty. -/
+    the video slice packets from the START of the most recent key frame onward (parameter-set
+    packets, audio and RTCP are not part of it); without GOP caching it is empty.
+    `ann` annotates the history with the kind the cache acts on: a key-frame slice packet that
+    follows a key-frame slice packet with the same RTP timestamp continues that key frame
+    (`c02_key_frame_start`), so a key frame sent as several slice packets is kept whole. -/
 theorem c02_cache_state (hevc gop : Bool) (ps : List Pkt) :
     let c := packAll genConsts { hevc := hevc, cacheGop := gop } ps
     c.vps = (ps.filter (fun p => pktKind genConsts hevc p = .vps)).getLast? ∧
     c.sps = (ps.filter (fun p => pktKind genConsts hevc p = .sps)).getLast? ∧
     c.pps = (ps.filter (fun p => pktKind genConsts hevc p = .pps)).getLast? ∧
     c.gop = (if gop then
-        suffixFromLast (fun p => pktKind genConsts hevc p = .key)
-          (ps.filter (fun p => pktKind genConsts hevc p = .key ∨ pktKind genConsts hevc p = .other))
+        ((suffixFromLast (fun x => decide (x.2 = PK.key))
+          ((ann genConsts hevc none ps).filter (fun x => decide (x.2 = PK.key ∨ x.2 = PK.other)))).map (·.1))
       else []) := by
   intro c
   have h := cacheSpec_packAll genConsts hevc gop ps
   exact ⟨h.vps, h.sps, h.pps, h.gopS⟩
+
+/-- Which packets start a key frame, stated without the scan: the packet published after the
+    history `ps` is acted on as a key-frame START iff it is a key-frame slice packet and the last
+    slice packet before it is not a key-frame slice packet with the same RTP timestamp; a
+    key-frame slice packet that does continue such a run is acted on as an ordinary packet of the
+    GOP; every other packet is acted on as what it is. -/
+theorem c02_key_frame_start (hevc : Bool) (ps : List Pkt) (p : Pkt) :
+    let continues : Bool := match (ps.filter (isSlice genConsts hevc)).getLast? with
+      | some q => decide (pktKind genConsts hevc q = .key) && decide (q.ts = p.ts)
+      | none => false
+    effKind genConsts hevc (runAfter genConsts hevc none ps) p =
+      (if pktKind genConsts hevc p = .key then (if continues then .other else .key)
+       else pktKind genConsts hevc p) := by
+  intro continues
+  rw [runAfter_spec]
+  show effKind genConsts hevc _ p = _
+  unfold effKind
+  cases hk : pktKind genConsts hevc p <;> simp only [reduceCtorEq, if_false, if_true]
+  -- only the key case is left with something to show
+  show (if _ = some p.ts then PK.other else PK.key) = if continues then PK.other else PK.key
+  cases hl : (ps.filter (isSlice genConsts hevc)).getLast? with
+  | none => simp [continues, hl]
+  | some q =>
+    by_cases hq : pktKind genConsts hevc q = .key
+    · by_cases ht : q.ts = p.ts <;> simp [continues, hl, hq, ht]
+    · simp [continues, hl, hq]
+
+/-- A key frame of several slice packets is kept whole (H.264, single-NAL IDR slices with one
+    timestamp): the GOP replayed to a joiner starts with the FIRST slice. -/
+theorem c02_multi_slice_key_frame :
+    let sps : Pkt := { uid := 1, ch := 0, payload := [0x67, 1, 2, 3], ts := 9000 }
+    let pps : Pkt := { uid := 2, ch := 0, payload := [0x68, 1, 2, 3], ts := 9000 }
+    let s1 : Pkt := { uid := 3, ch := 0, payload := [0x65, 0x88, 2, 3], ts := 9000 }
+    let s2 : Pkt := { uid := 4, ch := 0, payload := [0x65, 0x08, 2, 3], ts := 9000 }
+    let q : Pkt := { uid := 5, ch := 0, payload := [0x61, 0x9a, 2, 3], ts := 12000 }
+    (packAll genConsts { hevc := false, cacheGop := true } [sps, pps, s1, s2, q]).pushTo = [sps, pps, s1, s2, q] := by
+  decide
+
+/-- The behaviour before the repair (every key-frame slice packet restarted the GOP: the model
+    with the key run ignored): the joiner's GOP starts in the middle of the key frame. -/
+theorem c02_multi_slice_key_frame_old_counterexample :
+    let sps : Pkt := { uid := 1, ch := 0, payload := [0x67, 1, 2, 3], ts := 9000 }
+    let pps : Pkt := { uid := 2, ch := 0, payload := [0x68, 1, 2, 3], ts := 9000 }
+    let s1 : Pkt := { uid := 3, ch := 0, payload := [0x65, 0x88, 2, 3], ts := 9000 }
+    let s2 : Pkt := { uid := 4, ch := 0, payload := [0x65, 0x08, 2, 3], ts := 9000 }
+    let q : Pkt := { uid := 5, ch := 0, payload := [0x61, 0x9a, 2, 3], ts := 12000 }
+    let packOld := fun (c : Cache) (p : Pkt) =>
+      match ({ c with keyRun := none } : Cache).pack genConsts p with | some (c', _) => c' | none => c
+    ([sps, pps, s1, s2, q].foldl packOld { hevc := false, cacheGop := true }).pushTo = [sps, pps, s2, q] := by
+  decide
 
 /-- The join is one cut of the history, for every interleaving: a consumer's replay is the cache
     replay of exactly the packets accepted before its attach point `joinedAt` (parameter sets, then
